@@ -8,7 +8,17 @@ git -C $WT checkout -q -- . && git -C $WT clean -fdq
 git -C $WT apply $D/patch.diff || { echo "$ID: patch does not apply"; exit 2; }
 pkgs=$(grep '^+++ b/' $D/patch.diff | sed 's#+++ b/##; s#/[^/]*$##' | sort -u | sed 's#^#./#' | grep -v replication | tr '\n' ' ')
 build=$(cd $WT && go build ./... 2>&1 | tail -3)
-tests=$(cd $WT && go test -vet=off -count=1 $pkgs 2>&1 | grep -v "no test files" | tr '\n' ';')
+tests=""
+[ -n "$pkgs" ] && tests=$(cd $WT && go test -vet=off -count=1 $pkgs 2>&1 | grep -v "no test files" | tr '\n' ';')
+# pkg/replication: the package's full run ends in the suite's 25-minute timeout (as in the pinned baseline), so run the
+# tests the baseline counts (stable_pass), by name
+if grep -q '^+++ b/pkg/replication/' $D/patch.diff; then
+  names=$(python3 -c "
+import json,ast
+d=json.load(open('/root/.vp/BASELINE.json')); sp=d['stable_pass']; sp=ast.literal_eval(sp) if isinstance(sp,str) else sp
+print('|'.join(sorted({s.split('::')[1].split('/')[0] for s in sp if s.startswith('github.com/KevoDB/kevo/pkg/replication::')})))")
+  tests="$tests$(cd $WT && timeout 900 go test -vet=off -count=1 -timeout 800s -run "^($names)\$" ./pkg/replication/ 2>&1 | tail -2 | tr '\n' ';')"
+fi
 demo=$(ls $D | grep -E 'zz_demo.*_test.go' | head -1)
 dpkg=$(python3 -c "
 import json,re
